@@ -127,6 +127,26 @@ def opt_is_some_and(ev, cx, args):
     return out
 
 
+@model("filter", "option")
+def opt_filter(ev, cx, args):
+    """`x.filter(p)` is `match x { Some(v) if p(&v) => Some(v), _ => None }`."""
+    out = []
+    for n, p, env in _opt_split(ev, cx, args[0]):
+        if n == "None":
+            out.append(("val", env, p, NONE))
+            continue
+        v = ev.payload(args[0], OPTION, "Some")
+        for r in _apply(ev, cx, args[1], (v,), env, p, "f", 1):
+            if r[0] != "val":
+                out.append(r)
+                continue
+            sp = ev.split_bool(r[3], r[2], (cx.fid, (cx.bb, "t")))
+            envs = [r[1]] + [dict(r[1]) for _ in sp[1:]]
+            for i, (b, p2) in enumerate(sp):
+                out.append(("val", envs[i], p2, some(v) if b == 1 else NONE))
+    return out
+
+
 @model("ok_or", "option")
 def opt_ok_or(ev, cx, args):
     out = []
